@@ -152,4 +152,9 @@ theorem C10_cex_new_model_left_to_recorded_migration :
     tableExists .after false true (toExecute ⟨2, []⟩ 1) 0 = false ∧ tableExists .orig false true (toExecute ⟨2, []⟩ 1) 0 = true := by
   decide
 
+/-- the model compares upgrade methods by value; so does the source - no comparison with an
+`UpgradeMethod` constant goes by object identity, which a value loaded from the database would fail
+(read by the translator on every run) -/
+theorem C10_source_upgrade_method_by_value : DEvo.Generated.upgradeMethodIdentityTests = [] := by decide
+
 end DEvo.Props.C10
